@@ -22,11 +22,11 @@ CHECKS = {
  "C13": ("tarsim", "exploration", "seeded search over archives, chunked delivery, 1-4 opener tasks with drawn delays, one fault (truncation at a 512-byte block, reader error at an offset, flipped header byte, cancellation after a drawn number of steps, failing destination create/write/close/mkdir/chmod) and schedules; judged: a successful Open delivers exactly the entry's bytes, every Open and Done() has returned at quiescence (deadlock verdict otherwise); the unexported pubsub and buffer pool are also driven directly through an overlay export shim", "an io.Reader that never returns is outside the property (the simulated stream always answers); flipped data bytes are not generated (tar has no data checksum); gates after cancel()/Done() calls let the scheduler run the released waiters before the releaser continues", TECH_SCHED),
  "C14": ("storesim", "exploration", "seeded search over operation histories and single store faults (position over all store call indices; kinds: Get, rejected Set, Set applied but reported failed, lazy Data(), lazy ReadDirNames(), Transaction()) on keyvalue.FS over a plain SimStore (serial fallback) and over the real in-memory TransactionStore behind a fault-injecting wrapper, with a fault-free twin in lockstep", "one fault per trial (the property speaks of a single failing call); after the fault the twin is no longer compared, the look-up-agrees-with-store invariant keeps running; runs as a single scheduler task with lock gates so a store left locked is a deadlock verdict", TECH_FAULT),
  "C15": ("concsim", "exploration", "seeded search over small concurrent programs (2-3 tasks x 1-3 operations, three families) and over their interleavings on the real mem.FS: tasks are real goroutines parked at gates (transaction open = lock gate on the real store mutex, every Get/Set/Commit/Abort, every lazy record getter, every blob and FS-level mutex acquisition); judged against the set of outcomes of all program-order-preserving sequential executions of the same code; plus an auxiliary free-running pass under the race detector, which is runtime monitoring and labelled so", "operations = single methods of the FS or of a handle (helpers that fall back to several primitive calls are sequences of operations); serialisability, not real-time linearizability, as the statement says; interleavings are explored at gate granularity: two plain memory accesses racing between gates are only visible to the auxiliary -race pass; sampled schedules (3 policies), not all", TECH_SCHED + "; oracle = sequential re-execution of the same code in every program-order-preserving order"),
- "C16": ("fsdiff/listing", "exploration", "seeded search over directory sizes, stacks and page-size sequences; by-name listing and paged handle reads judged for completeness, duplicates, order, Info-vs-Stat agreement and EOF rules", "directories are not mutated between pages; mem listing order permuted from the choice stream", TECH_SEQ),
- "C18": ("txnsim", "exploration", "seeded search over transaction call sequences and endings on the real in-memory store's transactions and on the serial fallback over a SimStore with injected Get/Set faults, judged against a map model (result count, order, op ids, values, errors) and by opening, reading and committing a fresh transaction after every ending; plus 2-3 concurrent transactions on the real in-memory store as tasks under the seeded scheduler, judged for isolation", "the store mutex is never modelled: the scheduler probes it with TryLock, so a lock that is taken later, earlier or not at all changes which interleavings are explored; a store left locked is a deadlock verdict; a double unlock kills the worker process and is attributed to the trial by the driver; Commit twice is not generated", TECH_SCHED),
+ "C16": ("fsdiff/listing", "exploration", "seeded search over directory sizes, stacks and page-size sequences; by-name listing and paged handle reads judged for completeness, duplicates, order, Info-vs-Stat agreement and EOF rules; in a third of the SimStore trials one store call of a page read fails (the failed page may deliver nothing, the listing, if it reaches its end, is still complete and duplicate-free)", "directories are not mutated between pages; mem listing order permuted from the choice stream", TECH_SEQ),
+ "C18": ("txnsim", "exploration", "seeded search over transaction call sequences and endings on the real in-memory store's transactions and on the serial fallback over a SimStore with injected Get/Set faults, judged against a map model (result count, order, op ids, values, errors) and by opening, reading and committing a fresh transaction after every ending; plus 2-3 concurrent transactions on the real in-memory store as tasks under the seeded scheduler, judged for isolation (a third of them opened read-only; half of the serial-fallback trials over a store that ignores the context it is handed)", "the store mutex is never modelled: the scheduler probes it with TryLock, so a lock that is taken later, earlier or not at all changes which interleavings are explored; a store left locked is a deadlock verdict; a double unlock kills the worker process and is attributed to the trial by the driver; Commit twice is not generated", TECH_SCHED),
  "C19": ("blobsim", "exploration", "seeded search over call sequences on blob.Bytes (and on everything derived: views of views, Set from an own view) through the dispatch functions, judged after every call against a []byte model with aliasing; runs as the single task of the scheduler with lock gates on so that re-entering the blob mutex is a deterministic deadlock verdict; the same sequences run against idbblob under node (GOOS=js GOARCH=wasm)", "views are dropped from the comparison when their root is resized (whether they still alias is implementation specific); a Set whose source does not fit may copy what fits or be refused; for the typed-array blob an error for out-of-range arguments is optional as stated; Set/Grow/Truncate dispatch fallbacks for third-party blobs lacking the method are not judged (DESIGN section 5)", TECH_SCHED + " (single task; the schedule dimension is the lock re-entry check)"),
- "C17": ("handlediff/closed+unlink", "exploration", "seeded search over post-Close call orders on every handle kind of seven stacks, sibling-handle independence and unlink/rename-then-write histories, judged against os.File and the os twin's set of names", "single goroutine; reference = os.File on Linux", TECH_SEQ),
- "C20": ("deviants", "fault_enumeration", "enumeration of a fixed catalogue of 62 single-deviation wrappers around mem.FS (the simulator's fault-injecting FS wrapper in silent mode: operation does nothing / applied twice / entry left behind or missing / wrong permission bits, size, bytes, kind, name, mtime / wrong error kind / wrong error path / EOF early or missing) plus three references (mem.FS, os.FS, the wrapper without deviation); each runs the full fstest.FS and fstest.File suites at -test.parallel 1 and 16, twice each; references must pass, every deviant must fail, the verdict vector must be identical across the four runs", "not a simulation of the library: the 'prove sensitivity' step of the technique applied to the conformance suite (DESIGN 2.1); the catalogue samples single deviations that some scenario exercises; built and run with the repository's default toolchain; quick tier runs a seed-rotated third of the catalogue plus the deviants named by known findings", "fault seeding: enumerated silent-fault deviants of the simulator's FS wrapper run against the conformance suite"),
+ "C17": ("handlediff/closed+unlink", "exploration", "seeded search over post-Close call orders on every handle kind of seven stacks, sibling-handle independence and unlink/rename-then-write histories, judged against os.File and the os twin's set of names; empty and nil buffers after Close; one injected store fault in handle operations after the unlink (the call may fail, the name stays gone)", "single goroutine; reference = os.File on Linux", TECH_SEQ),
+ "C20": ("deviants", "fault_enumeration", "enumeration of a fixed catalogue of 65 single-deviation wrappers around mem.FS (the simulator's fault-injecting FS wrapper in silent mode: operation does nothing / applied twice / entry left behind or missing / wrong permission bits, size, bytes, kind, name, mtime / wrong error kind / wrong error path / EOF early or missing / correct alone but EBUSY while another call is in flight) plus three references (mem.FS, os.FS, the wrapper without deviation); each runs the full fstest.FS and fstest.File suites at -test.parallel 1 and 16 x GOMAXPROCS 1 and 16 (thorough: 1, 2, 4, 16), 2 (thorough: 5) times each; references must pass, every deviant must fail, all runs of one entry must agree", "not a simulation of the library: the 'prove sensitivity' step of the technique applied to the conformance suite (DESIGN 2.1); the catalogue samples single deviations that some scenario exercises; built and run with the repository's default toolchain; both tiers run the whole catalogue", "fault seeding: enumerated silent-fault deviants of the simulator's FS wrapper run against the conformance suite"),
 }
 
 NOT_APPLICABLE = {
